@@ -8,7 +8,22 @@ HARNESS_PKGS = {
     "telemetry": ("server/telemetry", "telemetry"),
 }
 
+LOG_ASSUME = [
+    "index derived from the records (one slot per record): exact for crash-free executions; crash states are C05's model",
+    "message timestamps are non-zero (segment.write treats firstWriteTime == 0 as 'no write yet'); time.Now().UnixNano() never is",
+    "32-bit relative offsets/positions of the index do not overflow (segments < 2 GiB, < 2^31 offsets apart)",
+    "single writer (the partition serialises Append/AppendMessageSet/Truncate); concurrency of readers and HW is C03",
+]
+
 PROPS = {
+    "C01": dict(
+        lean_modules=["Liftbridge.Props.C01"],
+        gen_sources=["server/commitlog/"],
+        go_pkg="./server/commitlog", test="TestVerifC01",
+        level="proof",
+        assumptions=LOG_ASSUME,
+        trusted=["OS file system and mmap below the modelled append/rename semantics"],
+    ),
     "C14": dict(
         lean_modules=["Liftbridge.Props.C14"],
         gen_sources=["server/protocol/envelope.go"],
